@@ -129,13 +129,16 @@ func (h *ConsistentHash) Remove(node any) {
 
 	for i := 0; i < h.replicas; i++ {
 		hash := h.hashFunc([]byte(nodeRepr + strconv.Itoa(i)))
-		index := sort.Search(len(h.keys), func(i int) bool {
-			return h.keys[i] >= hash
-		})
-		if index < len(h.keys) && h.keys[index] == hash {
-			h.keys = append(h.keys[:index], h.keys[index+1:]...)
+		// 节点可能以较少的副本数加入，只移除确实属于该节点的虚拟节点，
+		// 否则会误删其它节点恰好位于该位置的虚拟节点。
+		for n := h.removeRingNode(hash, nodeRepr); n > 0; n-- {
+			index := sort.Search(len(h.keys), func(i int) bool {
+				return h.keys[i] >= hash
+			})
+			if index < len(h.keys) && h.keys[index] == hash {
+				h.keys = append(h.keys[:index], h.keys[index+1:]...)
+			}
 		}
-		h.removeRingNode(hash, nodeRepr)
 	}
 
 	h.removeNode(nodeRepr)
@@ -154,12 +157,15 @@ func (h *ConsistentHash) containsNode(nodeRepr string) bool {
 	return ok
 }
 
-func (h *ConsistentHash) removeRingNode(hash uint64, nodeRepr string) {
+// removeRingNode 移除给定位置上属于该节点的虚拟节点，并返回移除的数量。
+func (h *ConsistentHash) removeRingNode(hash uint64, nodeRepr string) (removed int) {
 	if nodes, ok := h.ring[hash]; ok {
 		newNodes := nodes[:0]
 		for _, x := range nodes {
 			if repr(x) != nodeRepr {
 				newNodes = append(newNodes, x)
+			} else {
+				removed++
 			}
 		}
 		if len(newNodes) > 0 {
@@ -168,6 +174,8 @@ func (h *ConsistentHash) removeRingNode(hash uint64, nodeRepr string) {
 			delete(h.ring, hash)
 		}
 	}
+
+	return
 }
 
 func repr(node any) string {
